@@ -60,8 +60,11 @@ def parse(text):
                 raise TranslateError('unrecognised call %s(%s) in %s' % (fn, args, tn))
         toks.append('T|' + ','.join(fs))
     for un in unames:
-        m = re.search(r'static int %s_union_verifier\(flatcc_union_verifier_descriptor_t \*ud\)\s*\{\s*switch \(ud->type\) \{(.*?)\n    \}\s*\}' % re.escape(un), text, flags=re.S)
+        # switch over the member type; an unknown type is accepted either by `default: return flatcc_verify_ok;` inside the switch or by
+        # `default: break;` followed by `return flatcc_verify_ok;` after it
+        m = re.search(r'static int %s_union_verifier\(flatcc_union_verifier_descriptor_t \*ud\)\s*\{\s*switch \(ud->type\) \{(.*?)\n    \}\s*(return flatcc_verify_ok;\s*)?\}' % re.escape(un), text, flags=re.S)
         if not m: raise TranslateError('no body for union verifier ' + un)
+        tail_ok = bool(m.group(2))
         ms = []
         for line in m.group(1).strip().split('\n'):
             line = line.strip()
@@ -75,6 +78,10 @@ def parse(text):
             c = re.fullmatch(r'case (\d+): return flatcc_verify_union_string\(ud\);', line)
             if c: ms.append('%s/X' % c.group(1)); continue
             if line == 'default: return flatcc_verify_ok;': continue
+            if line == 'default: break;' and tail_ok: continue
+            if line == 'default:' : continue
+            if line in ('break;',) and tail_ok: continue
+            if line == 'return flatcc_verify_ok;': continue
             raise TranslateError('unrecognised union verifier line %r in %s' % (line, un))
         toks.append('U|' + ','.join(ms))
     structs = {}
